@@ -146,6 +146,15 @@ def _state_job(args):
             if p[1] in "ds" and p not in ("d0", "00"):
                 Hq[c + 1, c] = rng.integers(-3, 4, 4)              # general quaternion sub-diagonal
         hess_check(rec, cls + ":quaternion-subdiagonal", {"pattern": pat, "H": Hq.tolist()}, Hq)
+        Hp = H.copy()
+        for c, p in enumerate(pat):
+            if p[1] in "ds" and p not in ("d0", "00"):
+                v = rng.integers(-3, 4, 4).astype(float)
+                v[0] = 0.0                                         # purely imaginary sub-diagonal (zero real part)
+                if not np.any(v):
+                    v[1 + c % 3] = 2.0
+                Hp[c + 1, c] = v
+        hess_check(rec, cls + ":imaginary-subdiagonal", {"pattern": pat, "H": Hp.tolist()}, Hp)
     return rec.events, rec.info
 
 
